@@ -119,6 +119,19 @@ def gen_prices(rng, n, style="walk"):
     inside | repeat | inside_then_walk"""
     if style in ("inside", "repeat"):
         return gen_inside(rng, n, repeat=style == "repeat")
+    if style == "outside":
+        # a walk in which about every fourth candle is an outside bar of the last w candles: a new window
+        # high AND a new window low in the same candle, often while the candle leaving the window held
+        # neither extreme (what a rolling-extreme shortcut that updates one side per candle gets wrong)
+        out = gen_prices(rng, n, "walk")
+        for i in range(2, n):
+            if rng.random() < 0.28:
+                w = rng.randint(2, 9)
+                o, h, l, c, v = out[i]
+                hh = max(x[1] for x in out[max(0, i - w):i]) + rng.choice([1, 1, 2])
+                ll = max(1, min(x[2] for x in out[max(0, i - w):i]) - rng.choice([1, 1, 2]))
+                out[i] = (o, max(h, hh), min(l, ll), c, v)
+        return out
     if style in ("flat_then_walk", "zerovol_then_walk"):
         # a long quiet opening (flat candles / no volume), then ordinary trading: readings that are
         # legitimately exactly 0 at the start of a series
